@@ -6,7 +6,7 @@ from s1 import hx
 PROP = "C10"
 
 PATHS = [b"a", b"b", b"a/a", b"a/b", b"b/a", b"a/b/a", b"a/b/c.txt", b"x/b/f.txt", b"x/y.txt", b"x", b"a/a/a/a", b"b/b", b"ab",
-         b"a/ab", b"x/b", b"ab/c/d.txt", b"ab/c"]       # "ab/…": a sibling whose NAME merely starts with "a" (string prefix, not a path prefix)
+         b"a/ab", b"x/b", b"ab/c/d.txt", b"ab/c", b"a/b/a/d.txt"]       # a/b/a/d.txt: below a directory (a/b/a) that is itself two levels below "a"       # "ab/…": a sibling whose NAME merely starts with "a" (string prefix, not a path prefix)
 FLAGS = ["-", "d", "dr"]
 
 
